@@ -620,7 +620,7 @@ theorem fixFold (input : List Scaffold) (b : Build) (err : Int) : ∀ (rest : Li
             by_cases hk : p.fragment.keyTuple = k
             · simp only [↓reduceIte, fixAt, hasKey, hk, and_true, decide_true] at h0 ⊢
               omega
-            · simp only [↓reduceIte, fixAt, hasKey, hk, and_true, false_and, decide_false, Bool.false_eq_true] at h0 ⊢
+            · simp only [↓reduceIte, fixAt, hasKey, hk, and_true, decide_false, Bool.false_eq_true] at h0 ⊢
               omega
           · have : fixAt k s p = false := by
               simp only [fixAt, decide_eq_false_iff_not]; exact fun ⟨_, e⟩ => hs e.symm
